@@ -117,6 +117,7 @@ type Vaxis struct {
 	cursorNext       cursorState
 	cursorLast       cursorState
 	closed           bool
+	suspended        bool
 	modesEnabled     bool
 	refresh          bool
 	kittyFlags       int
@@ -1406,6 +1407,12 @@ func (vx *Vaxis) Suspend() error {
 	// 2. Send a DA1 query so there is data on the reader, breaking the read
 	//    loop
 	// 3. Confirm we have closed
+	if vx.suspended {
+		// Already suspended (Close after Suspend): the parser is gone and
+		// the terminal is restored, there is nobody left to wait for
+		return nil
+	}
+	vx.suspended = true
 	vx.parser.Close()
 	io.WriteString(vx.console, primaryAttributes)
 	vx.parser.WaitClose()
@@ -1522,6 +1529,7 @@ func (vx *Vaxis) Resume() error {
 	if err != nil {
 		return err
 	}
+	vx.suspended = false
 
 	vx.enterAltScreen()
 	vx.enableModes()
